@@ -359,7 +359,9 @@ class Inference(ABC):
                 if p.is_alive():
                     p.terminate()
                     p.join()  # Ensure the process has terminated
-                    mp_return_dict[processes.index((p, i, query))] = (
+                    # record the time-out under the query's own key (not its position
+                    # in the batch, which may be another query's key)
+                    mp_return_dict[i] = (
                         i,
                         False,
                         True,
